@@ -609,6 +609,10 @@ impl Kanata {
             }
         };
         update_kbd_out(&cfg.options, &self.kbd_out)?;
+        // Everything that can fail has to run before the first field is replaced, otherwise a
+        // failure leaves a half-applied configuration behind.
+        #[cfg(target_os = "linux")]
+        Kanata::set_repeat_rate(cfg.options.linux_opts.linux_x11_repeat_delay_rate)?;
         #[cfg(target_os = "windows")]
         set_win_altgr_behaviour(cfg.options.windows_opts.windows_altgr);
         self.sequence_backtrack_modcancel = cfg.options.sequence_backtrack_modcancel;
@@ -657,8 +661,6 @@ impl Kanata {
         }
 
         *MAPPED_KEYS.lock() = cfg.mapped_keys;
-        #[cfg(target_os = "linux")]
-        Kanata::set_repeat_rate(cfg.options.linux_opts.linux_x11_repeat_delay_rate)?;
         log::info!("Live reload successful");
         #[cfg(feature = "tcp_server")]
         if let Some(tx) = _tx {
